@@ -24,6 +24,7 @@ SOURCES = [
     {"kind": "seed", "seed": "000102030405060708090a0b0c0d0e0f" * 4},
     {"kind": "entropy", "entropy": "7f" * 16, "password": "entropy-source passphrase"},
     {"kind": "entropy", "entropy": "00" * 4 + "a5" * 20, "password": ""},
+    {"kind": "ctor", "seed": "a1b2c3d4" * 8},          # PaperWallet(master=<node built with the OTHER network flag>, testnet=...): the wallet's flag rules
     {"kind": "xkey", "k": 0x00000000000000000000000000000000F1E2D3C4B5A69788796A5B4C3D2E1F00, "chain": "00" * 32},
     {"kind": "xkey", "k": hd.N - 1, "chain": "ff" * 32},
     {"kind": "xkey", "k": 0x5D2A1C3B4E5F60718293A4B5C6D7E8F900112233445566778899AABBCCDDEEFF, "chain": "3c" * 32, "depth": 3, "index": hd.H + 7, "pfp": "0badcafe"},
@@ -48,6 +49,10 @@ def build(src, testnet):
         mn = hd.mnemonic_from_entropy(bytes.fromhex(src["entropy"]))
         w = PaperWallet.from_entropy_hex(src["entropy"], src["password"], testnet)
         return w, hd.master(hd.seed_from_mnemonic(mn, src["password"])), mn, src["password"]
+    if src["kind"] == "ctor":
+        from btc_hd_wallet.bip32 import PrvKeyNode
+        node_ = PrvKeyNode.master_key(bytes.fromhex(src["seed"]), not testnet)
+        return PaperWallet(master=node_, testnet=testnet), hd.master(bytes.fromhex(src["seed"])), None, None
     if src["kind"] == "seed":
         w = PaperWallet.from_bip39_seed_hex(src["seed"], testnet)
         return w, hd.master(bytes.fromhex(src["seed"])), None, None
@@ -150,6 +155,8 @@ def chk_vector(si, testnet, account, interval):
         st, js4 = attempt(w.json, data, 4)
         if st != "ok" or json.loads(js4) != norm(data):
             viols.append(V(P + ":json:roundtrip-indent:differs", "json(data, indent=4) does not parse back to data"))
+    if src["kind"] == "ctor":
+        return viols          # node-level serialisation of a node built with the other flag follows the NODE (unchanged code too): not judged
     st, wj = attempt(w.wasabi_json)
     acct84 = hd.derive(m, [H + 84, H, H])
     expw = {"ExtPubKey": hd.xpub(acct84, 0x043587CF if testnet else 0x0488B21E), "MasterFingerprint": hd.fingerprint(m.K).hex().upper(),
